@@ -48,7 +48,7 @@ func genC15(t *tape.Tape, tier string) any {
 	c.HeaderS = []int{5, 20, 60}[t.Intn(3)]
 	c.TLSS = []int{3, 10, 45}[t.Intn(3)]
 	c.PPS = []int{2, 7, 33}[t.Intn(3)]
-	kinds := []string{"no-byte", "head-k", "between", "slow-origin", "idle-then-slow-head", "pipelined-partial-head"}
+	kinds := []string{"no-byte", "head-k", "between", "slow-origin", "idle-then-slow-head", "pipelined-partial-head", "slow-body"}
 	switch c.Stack {
 	case "tls":
 		kinds = append(kinds, "hello-k", "hello-k")
@@ -317,7 +317,7 @@ func runC15(env *core.Env, ci any) {
 				}
 				r.lo, r.hi = hdr, hdr
 				waitClosed(&prefixConn{Conn: conn, r: br}, r)
-			case "head-k", "between", "slow-origin", "idle-then-slow-head":
+			case "head-k", "between", "slow-origin", "idle-then-slow-head", "slow-body":
 				conn, err := establish(raw, "")
 				if err != nil {
 					r.setupErr = err.Error()
@@ -367,6 +367,24 @@ func runC15(env *core.Env, ci any) {
 						r.served, r.servedAt = true, now()
 					} else {
 						r.closedAt = now()
+					}
+				case "slow-body":
+					// the head arrives at once and complete; the body follows three header limits later. No limit of this
+					// configuration covers a request body (there is no read timeout): the exchange must be served
+					fmt.Fprintf(conn, "POST http://%s.ok.example/%s HTTP/1.1\r\nHost: %s.ok.example\r\nContent-Length: 5\r\n\r\n", tok, tok, tok)
+					r.phaseAt = now()
+					time.Sleep(3*hdr + time.Duration(i)*time.Millisecond)
+					conn.Write([]byte("hello"))
+					br := bufio.NewReader(conn)
+					conn.SetReadDeadline(time.Now().Add(11 * time.Hour))
+					m, err := h1.ReadResponse(br, "POST")
+					if err == nil && m.Status == 200 {
+						r.served, r.servedAt = true, now()
+					} else {
+						r.closedAt = now()
+						if m != nil {
+							r.setupErr = ""
+						}
 					}
 				case "slow-origin":
 					fmt.Fprintf(conn, "GET http://%s.ok.example/%s-slow HTTP/1.1\r\nHost: %s.ok.example\r\n\r\n", tok, tok, tok)
@@ -468,6 +486,13 @@ func runC15(env *core.Env, ci any) {
 				env.Fail("stall-closed-early", feature+"/slow-header-then-slow-hello", "peer %d sent its PROXY header after %v (limit %v) and its ClientHello %v after that (handshake limit %v): inside every limit, yet it was closed at %v instead of being served", i, ppTO/2, ppTO, tlsTO*3/4, tlsTO, r.closedAt)
 			}
 			env.Probe("slow_but_within_every_limit_served")
+			continue
+		}
+		if r.peer.Kind == "slow-body" {
+			if !r.served {
+				env.Fail("stall-closed-early", feature, "peer %d sent a complete request head at %v and the 5-byte body %v later (header limit %v, idle limit %v, no read timeout configured): no limit covers that, yet the exchange was not served (connection closed or error response at %v)", i, r.phaseAt, 3*hdr, hdr, idle, r.closedAt)
+			}
+			env.Probe("slow_body_served")
 			continue
 		}
 		if r.peer.Kind == "slow-origin" {
